@@ -136,7 +136,7 @@ def explore(ctx):
         for b in ints:
             al.append('{"i": %d, "a": %d, "b": %d}\n' % (k, a, b))
             def ex(v, fl):
-                return v if I64_MIN <= v <= I64_MAX else aglib.F(fl)      # not an i64: a float, and marked as one (never i64::MIN or MAX as an integer)
+                return v if I64_MIN <= v <= I64_MAX else aggoracle.from_float(fl)      # not an i64: the float computation, normalised like every number
             aw[k] = (ex(a + b, float(a) + float(b)), ex(a - b, float(a) - float(b)), ex(a * b, float(a) * float(b)))
             k += 1
     for binary in [None] + ([aglib.AGRIND_REL] if not quick else []):
